@@ -90,6 +90,7 @@ def build_lib(variant="plain", units=("mir.c", "mir-gen.c"), extra_flags=""):
     rtag = hashlib.md5(os.path.abspath(REPO).encode()).hexdigest()[:4]
     d = os.path.join(OUT, "build", "%s-%s-%s" % (variant, rtag, key))
     os.makedirs(d, exist_ok=True)
+    os.utime(d)                                  # in use: keeps concurrent checks from pruning it
     objs, procs = [], []
     for u in units:
         o = os.path.join(d, u.replace("/", "_").replace(".c", ".o"))
@@ -104,16 +105,18 @@ def build_lib(variant="plain", units=("mir.c", "mir-gen.c"), extra_flags=""):
             raise MachineryError("build of %s (%s) failed:\n%s" % (u, variant, o.decode()[-4000:]))
     # prune old builds of this variant
     for old in glob.glob(os.path.join(OUT, "build", "%s-%s-*" % (variant, rtag))):
-        if old != d and time.time() - os.path.getmtime(old) > 600:
+        if old != d and time.time() - os.path.getmtime(old) > 6 * 3600:
             shutil.rmtree(old, ignore_errors=True)
     return d, objs, cc, flags
 
 
 def cc_link(cc, flags, srcs, objs, exe, libs="-lm -ldl -lpthread", timeout=600):
-    cmd = "%s %s -I%s -I%s %s %s -o %s %s" % (cc, flags, REPO, os.path.join(HARNESS), " ".join(srcs), " ".join(objs), exe, libs)
+    tmp = "%s.tmp%d" % (exe, os.getpid())       # link aside and rename: a concurrent check may be executing or linking the same file
+    cmd = "%s %s -I%s -I%s %s %s -o %s %s" % (cc, flags, REPO, os.path.join(HARNESS), " ".join(srcs), " ".join(objs), tmp, libs)
     rc, o, e = sh(cmd, timeout=timeout)
     if rc != 0:
         raise MachineryError("link failed: %s\n%s\n%s" % (cmd, o[-3000:], e[-3000:]))
+    os.rename(tmp, exe)
     return exe
 
 
@@ -129,10 +132,12 @@ def build_header_harness(name, src, variant="asan", extra_flags="", libs="-lm"):
         for old in glob.glob(os.path.join(d, name + "-*")):
             if time.time() - os.path.getmtime(old) > 600:
                 os.unlink(old)
-        cmd = "%s %s -D%s %s -I%s -I%s %s -o %s %s" % (cc, flags, GUARD, extra_flags, REPO, HARNESS, src, exe, libs)
+        tmp = "%s.tmp%d" % (exe, os.getpid())
+        cmd = "%s %s -D%s %s -I%s -I%s %s -o %s %s" % (cc, flags, GUARD, extra_flags, REPO, HARNESS, src, tmp, libs)
         rc, o, e = sh(cmd, timeout=600)
         if rc != 0:
             raise MachineryError("harness build failed: %s\n%s\n%s" % (cmd, o[-3000:], e[-3000:]))
+        os.rename(tmp, exe)
     return exe
 
 
@@ -250,9 +255,26 @@ def tlc_ok(r, what, allow_violation=False):
     raise MachineryError("TLC failed for %s (rc=%s):\n%s" % (what, r.rc, tail))
 
 
+_scratch_pruned = False
+
+
 def _scratch():
+    """out/scratch; on first use drops entries no process touched for 8 hours (left behind by interrupted runs)"""
+    global _scratch_pruned
     d = os.path.join(OUT, "scratch")
     os.makedirs(d, exist_ok=True)
+    if not _scratch_pruned:
+        _scratch_pruned = True
+        now = time.time()
+        try:
+            for e in os.scandir(d):
+                try:
+                    if now - e.stat().st_mtime > 8 * 3600 and (not e.is_dir() or all(now - x.stat().st_mtime > 8 * 3600 for x in os.scandir(e.path))):
+                        shutil.rmtree(e.path, ignore_errors=True) if e.is_dir() else os.unlink(e.path)
+                except OSError:
+                    pass
+        except OSError:
+            pass
     return d
 
 
